@@ -75,6 +75,14 @@ def main():
         try:
             body, _ = fn_body(src, fn)
             out[fn] = ops_of(body)
+            if fn == "close":
+                # close() must be unconditional: any control flow in it becomes a `branch` op (the model's
+                # close has none), so that e.g. a conditional notify_all changes the skeleton
+                evs = []
+                for m in re.finditer(r"\b(?:if|match|while|for|loop|return)\b|\?", body):
+                    evs.append(m.start())
+                if evs:
+                    out[fn] = ["branch"] * len(evs) + out[fn]
         except Exception as ex:
             errs.append(f"work_queue.rs:{fn}: {ex}")
             out[fn] = []
